@@ -6,7 +6,7 @@ PROPS["C13"] = dict(
          "inline or from other goroutines; the patterns unit plays every ordered pair of the six patterns for each idle timeout and pool limits "
          "1,10 (1,2,5,10 thorough). The exitrace unit schedules a prompt callback, waits until about the (calibrated) moment the idle worker leaves, "
          "schedules the next one, thousands of times with the arrival offset tracking the exit moment, and it also forces the order 'the last idle worker decides to leave, a Call "
-         "arrives right behind it' through the package lock (FIFO hand-over of a starving sync.Mutex); a barge squeeze lets a burst grow the pool to 2-5 workers, keeps a far future pending and, at the moment the surplus workers reach their decision to leave (two idle rounds), queues 3, 11, 12 or 25 Calls on the package lock AHEAD of them (nobody is parked on the wake channel meanwhile, so the wake-up tokens pile up beyond the channel's capacity): afterwards a Call must RETURN (within 3 s - otherwise the package lock is held for ever: verdict call-blocked) and its function must be started. Checked: every future that was not cancelled starts within 3 s of call-return + delay; when nothing is "
+         "arrives right behind it' through the package lock (FIFO hand-over of a starving sync.Mutex), and the same meeting in the other order at the worker's SECOND idle round (the Call queues first and finds a worker registered, the worker right behind it is about to leave: the future must be started all the same); a barge squeeze lets a burst grow the pool to 2-5 workers, keeps a far future pending and, at the moment the surplus workers reach their decision to leave (two idle rounds), queues 3, 11, 12 or 25 Calls on the package lock AHEAD of them (nobody is parked on the wake channel meanwhile, so the wake-up tokens pile up beyond the channel's capacity): afterwards a Call must RETURN (within 3 s - otherwise the package lock is held for ever: verdict call-blocked) and its function must be started. Checked: every future that was not cancelled starts within 3 s of call-return + delay; when nothing is "
          "pending the package reaches zero worker goroutines within 3*idle + 5 s; a Call after that fires within 3 s. A generations unit schedules a first generation of 1..9000(20000) futures (due in 10 min and cancelled, or due at once and left to fire, or alternating), a second generation of 1..3000 futures due 30-150 ms ahead (part of it before the first cancel sweep), "
          "and then cancels every handle of the first generation again 0-3 times (forward, reverse or shuffled): every future of the second generation is started exactly once, not early; the heap stays consistent. In 'layered' cases the first generation is a heap of 3..127 futures, two thirds due in 10 min and one third within 150-400 ms; the far ones are cancelled one by one "
          "and after every cancel the pending queue is checked to be a heap with consistent indexes (overlay accessor); the near ones must start on time. non-trivial = a near future "
